@@ -223,6 +223,11 @@ impl<K: Hash + Eq, V, FH: BuildHasher, RH: BuildHasher> SegmentedCache<K, V, FH,
 
     /// `put_protected` will force to put an entry in protected LRU
     pub fn put_protected(&mut self, k: K, v: V) -> PutResult<K, V> {
+        // a key that already lives in the probationary segment is promoted,
+        // so that it ends up in the protected segment and nowhere else
+        if self.probationary.contains(&k) {
+            return self.put(k, v);
+        }
         self.protected.put(k, v)
     }
 
